@@ -153,17 +153,7 @@ Qed.
 (* ---------------------------------------------------------------------------------------------- *)
 (* The state invariant of the annealer                                                              *)
 (* ---------------------------------------------------------------------------------------------- *)
-Record SAInv (vr : vresources) (m0 : pmachine) (cs : list pconstr) (fixed : list vertex) (s : sa_state) : Prop := {
-  sv_inv : Inv vr m0 cs (st_m s) (st_pl s);
-  sv_pl : PlInv vr m0 (st_pl s);
-  sv_all : forall v, In v (map fst vr) -> In v (map fst (st_pl s));
-  sv_loc : forall v c, In (PCLocation v c) cs -> zassoc v (st_pl s) = Some c;
-  sv_fixed : forall v c, In (PCLocation v c) cs -> In v fixed;
-  sv_l2v : forall c vs v, cassoc c (st_l2v s) = Some vs -> In v vs -> zassoc v (st_pl s) = Some c;
-  sv_l2v_nodup : forall c vs, cassoc c (st_l2v s) = Some vs -> NoDup vs }.
 
-Definition sa_init_state (s0 : sa_start) : sa_state :=
-  {| st_pl := ss_placement s0; st_l2v := init_l2v (ss_machine s0) (ss_placement s0); st_m := ss_machine s0 |}.
 
 (* l2v as built by PythonKernel.__init__ lists, per chip, vertices placed on it, each once *)
 Lemma init_l2v_spec : forall (pl : placement) (base : l2v),
@@ -755,4 +745,59 @@ Proof.
   intros vr m cs lp vp s0 draws s W Hc Hp Hs.
   destruct (anneal_result_feasible vr m cs lp vp s0 W Hc Hp) as [cs1 [Hwc [Hinit Hall]]].
   apply Hall. apply (sa_steps_preserve _ _ _ _ draws _ _ Hwc Hinit Hs).
+Qed.
+
+(* ---------------------------------------------------------------------------------------------- *)
+(* A concrete annealing run (non-vacuity of the SA theorems): a same-chip group fixed by a location *)
+(* constraint, a per-chip reservation; the first draw is an accepted swap that moves TWO vertices   *)
+(* out of the destination chip, the second passes every check, is performed and then reverted.     *)
+(* ---------------------------------------------------------------------------------------------- *)
+Definition exs_vr : vresources := [(1, [(0, 2)]); (2, [(0, 1)]); (3, [(0, 1)]); (4, [(0, 1)]); (5, [(0, 1)])].
+Definition exs_m : pmachine :=
+  {| pm_width := 2; pm_height := 1; pm_res := [(0, 4)]; pm_exc := []; pm_dead := [] |}.
+Definition exs_cs : list pconstr := [PCSameChip [4; 5]; PCLocation 4 (0, 0); PCReserve 0 0 2 (Some (1, 0))].
+
+Lemma exs_known : resource_known exs_m 0.
+Proof. split; [left; reflexivity|]. intros c d H. destruct H. Qed.
+
+Lemma exs_wf : wf_problem exs_vr exs_m exs_cs.
+Proof.
+  constructor.
+  - cbn. repeat constructor; cbn; intuition discriminate.
+  - intros v H. cbn in H. intuition lia.
+  - intros v d H. unfold exs_vr in H. in_cases; cbn; repeat constructor; cbn; intuition.
+  - intros v d r q H Hq. unfold exs_vr in H. in_cases; lia.
+  - intros v d r q H Hq. unfold exs_vr in H. in_cases; exact exs_known.
+  - cbn. constructor.
+  - split; [intros r q H; cbn in H; in_cases; lia | intros c d r q H; destruct H].
+  - intros k v H Hv. unfold exs_cs in H. in_cases; cbn in Hv; in_cases; cbn; tauto.
+  - intros r s e loc H. unfold exs_cs in H. in_cases. exact exs_known.
+Qed.
+
+Lemma exs_consistent : consistent exs_cs.
+Proof.
+  exists (fun _ => (0, 0)). split.
+  - intros v c H. unfold exs_cs in H. in_cases. reflexivity.
+  - intros vs a b _ _ _. reflexivity.
+Qed.
+
+Lemma exs_run :
+  wf_problem exs_vr exs_m exs_cs /\ consistent exs_cs
+  /\ exists s0 s1 s2 s2' s,
+       sa_prepare exs_vr exs_m exs_cs [] [] = Ok s0
+       /\ st_pl (sa_init_state s0) = [(1, (0, 0)); (2, (1, 0)); (3, (1, 0)); (-1, (0, 0))]
+       (* vertex 1 (two units) to chip (1,0): vertices 2 and 3 are swapped out; accepted *)
+       /\ sa_step (ss_vr s0) (map fst (ss_fixed s0)) (sa_init_state s0) 1 (1, 0) true = Ok (s1, true)
+       /\ st_pl s1 = [(1, (1, 0)); (2, (0, 0)); (3, (0, 0)); (-1, (0, 0))]
+       (* vertex 1 back to (0,0): passes every check (with accept = true it is kept) ... *)
+       /\ sa_step (ss_vr s0) (map fst (ss_fixed s0)) s1 1 (0, 0) true = Ok (s2', true)
+       /\ st_pl s2' = [(1, (0, 0)); (2, (1, 0)); (3, (1, 0)); (-1, (0, 0))]
+       (* ... and with accept = false it is performed and reverted *)
+       /\ sa_step (ss_vr s0) (map fst (ss_fixed s0)) s1 1 (0, 0) false = Ok (s2, false)
+       /\ st_pl s2 = st_pl s1
+       /\ sa_steps (ss_vr s0) (map fst (ss_fixed s0)) (sa_init_state s0) [(1, (1, 0), true); (1, (0, 0), false)] = Ok s
+       /\ finalise (rev (ss_subs s0)) (st_pl s) = Ok [(1, (1, 0)); (2, (0, 0)); (3, (0, 0)); (4, (0, 0)); (5, (0, 0))].
+Proof.
+  split; [exact exs_wf|]. split; [exact exs_consistent|].
+  do 5 eexists. repeat (split; [vm_compute; reflexivity|]). vm_compute. reflexivity.
 Qed.
